@@ -936,6 +936,10 @@ func (c *control) getEFGarg(ff *floatFormatter) {
 }
 
 func roundBytes(digits []byte, max int) []byte {
+	if max < 0 {
+		// All the digits and more are dropped, the value rounds to zero.
+		return digits[:0]
+	}
 	diff := len(digits) - max
 	if 0 < diff {
 	round:
